@@ -212,3 +212,9 @@ pub fn address_score(manager: &TransportManager, peer: &PeerId, address: &Multia
 pub fn address_count(manager: &TransportManager, peer: &PeerId) -> usize {
     manager.peers.read().get(peer).map(|context| context.addresses.addresses.len()).unwrap_or(0)
 }
+
+/// How the real TCP transport parses `address`: `None` = refused, `Some(peer)` = the peer it would authenticate.
+pub fn tcp_can_dial(address: &Multiaddr) -> Option<Option<PeerId>> {
+    use crate::transport::common::listener::{GetSocketAddr, TcpAddress};
+    TcpAddress::multiaddr_to_socket_address(address).ok().map(|(_, peer)| peer)
+}
